@@ -51,6 +51,9 @@ CLAIMED = {
  "C14": dict(cat="fault_enumeration", technique="fault enumeration derived from the TLA+ models (SluMem two-ended stack model checked by TLC; SluApi query/user-workspace obligations) executed against the real library under ASan/UBSan",
              text="SluMem (TLC, all interleavings of worker start/finish) establishes the stack invariants and rejects the pre-repair release policy; every allocation request of five kinds of driver call is made to fail together with all later ones (every k in thorough), every workspace size class from 10 % to 200 % of the library's own estimate is tried with 1..4 threads, user mode is compared bitwise with internal mode, and query / user-workspace histories are validated against SluApiTrace (guard zones around the caller's buffer, factors inside it).",
              note="Failure simulated at the allocation seam; diagnostic exits (USER_ABORT path or the library's exit(1) after its message) are accepted outcomes; F5 (workspace <= 20 % of the estimate) is a recorded finding.", ref="3.5, 5 C14"),
+ "C11": dict(cat="model_checking", technique="TLA+ model on an exact sub-domain (SluEquil: entries 0 or 2^e, integer arithmetic on exponents) with exhaustive comparison by TLC against the real ?gsequ/?laqgs + SluApi driver rule on executed histories",
+             text="On matrices with entries 0 or +-2^e every output of ?gsequ and ?laqgs (R, C, rowcnd, colcnd, amax, info, equed, the scaled matrix) is an integer function of the exponents, including clipping, thresholds, underflow and zero rows/columns; TLC compares the real routines exactly with that model on every 1x1 and 2x2 matrix over exponent sets spanning the range, random 3x3/4x4, four precisions; the expert-driver rule for A and B is asserted on every driver record.",
+             note="Exact only on the power-of-two domain; overflow of c_j*r_i is excluded from the claim; general matrices via the driver-level clauses (few-ulp relation).", ref="3.7, 5 C11"),
 }
 NA_REASON = "check not built yet in this session (planned, see DESIGN.md section 5); not claimed"
 
